@@ -59,7 +59,7 @@ LamUp == IF EstEv.lk = "num" THEN EstEv.lam ELSE LamMax(case)
 
 LkOf(e) == IF ~case.rel THEN "one"
            ELSE IF e.lk = "hidden" THEN (IF matrows = {} THEN "nan" ELSE "pos")
-           ELSE IF e.lk = "num" THEN "pos" ELSE e.lk
+           ELSE IF e.lk = "num" THEN (IF matrows = {} THEN "zero" ELSE "pos") ELSE e.lk
 BfOf(e) == IF e.lk = "num" THEN DLt(e.lam, Floor(case))
            ELSE IF e.lk = "hidden" /\ case.rel /\ matrows # {} THEN LamMaxBelowFloor(case)
            ELSE FALSE
@@ -86,7 +86,8 @@ Verdict(e) ==
      ELSE IF e.lk = "hidden" THEN "ok"
      ELSE IF ~case.rel THEN
        (IF e.lk = "num" /\ e.lam = DOne THEN "ok" ELSE "absolute_ridge_reports_estimate_not_one")
-     ELSE IF matrows = {} THEN (IF e.lk = "nan" THEN "ok" ELSE "all_padding_estimate_not_nan")
+     ELSE IF matrows = {} THEN
+       (IF e.lk = "nan" \/ (e.lk = "num" /\ e.lam = DZero) THEN "ok" ELSE "all_padding_estimate_not_nan_or_zero")
      ELSE IF e.lk # "num" THEN "lambda_hat_not_finite"
      ELSE IF ~IsDec(e.lam) THEN "malformed_number"
      ELSE IF e.lam = DZero THEN "lambda_hat_zero_on_nonzero_matrix"
